@@ -381,6 +381,8 @@ def mk_attr(base: Term, name: str) -> Term:
 
 
 def mk_idx(base: Term, i: Term) -> Term:
+    if base[0] == "attr" and base[2] == "loc" and i[0] == "tuple" and len(i[1]) == 2 and i[1][1][0] == "c" and isinstance(i[1][1][1], str):
+        return mk_idx(mk_idx(base[1], i[1][0]), i[1][1])      # frame.loc[mask, "col"] == frame[mask]["col"]
     if base[0] == "select":
         return mk_select(base[1], mk_idx(base[2], i), mk_idx(base[3], i))
     if base[0] == "new" and i[0] == "c" and isinstance(i[1], int) and not isinstance(i[1], bool):
@@ -753,3 +755,51 @@ def show(t, depth=0) -> str:
     if tag == "star":
         return "*" + s(t[1])
     return tag + "(" + ", ".join(show(x, depth + 1) if isinstance(x, tuple) else repr(x) for x in t[1:]) + ")"
+
+
+
+def simplify_for_empty(t: Term) -> Term:
+    """Identities that hold once a list has been replaced by []: concatenation with [], membership in [], comprehensions over [],
+    always-true filters, the identity comprehension, sorted(list(x)). Used to compare the value of an 'empty' fast path with the
+    general path's value specialised to the empty list (sa/props/c10.run_global_conditions)."""
+    EMPTY = ("list", ())
+
+    def go(x: Term) -> Term:
+        x = rebuild(x, go)
+        tag = x[0]
+        if tag == "concat":
+            parts = [y for y in x[1] if y != EMPTY]
+            if not parts:
+                return EMPTY
+            return parts[0] if len(parts) == 1 else ("concat", tuple(parts))
+        if tag == "notin" and x[2] == EMPTY:
+            return C(True)
+        if tag == "in" and x[2] == EMPTY:
+            return C(False)
+        if tag == "not" and x[1][0] == "c":
+            return C(not x[1][1])
+        if tag == "comp":
+            kind, elt, gens = x[1], x[2], x[3]
+            if any(it == EMPTY for it, _ in gens):
+                return EMPTY if kind in ("list", "gen") else x
+            new_gens = []
+            for it, ifs in gens:
+                ifs2 = tuple(c for c in ifs if c != C(True))
+                if any(c == C(False) for c in ifs2):
+                    return EMPTY if kind in ("list", "gen") else x
+                new_gens.append((it, ifs2))
+            x = ("comp", kind, elt, tuple(new_gens)) + tuple(x[4:])
+            if kind == "list" and len(new_gens) == 1 and not new_gens[0][1] and elt[0] == "bv" and \
+                    sum(1 for y in subterms(x) if y[0] == "bv") == 1:
+                return mk_call("list", [new_gens[0][0]])
+            return x
+        if tag == "call" and x[1] in ("sorted", "list", "tuple") and len(x[2]) == 1:
+            inner = x[2][0]
+            if inner == EMPTY and x[1] in ("sorted", "list"):
+                return EMPTY
+            if inner[0] == "call" and inner[1] == "list" and len(inner[2]) == 1 and not inner[3]:
+                return (x[0], x[1], (inner[2][0],)) + tuple(x[3:])
+        if tag == "call" and x[1] == "len" and len(x[2]) == 1 and x[2][0] == EMPTY:
+            return C(0)
+        return x
+    return go(t)
